@@ -1419,6 +1419,13 @@ def _decide_nowrap(self, fn, ob, scope):
         ob.verdict = VIOLATION
         ob.why = "unsigned subtraction of two non-constant values with no dominating order fact"
         return ob
+    if op == "Neg":
+        lo, hi = P.interval_lin(P.lin(a), facts)
+        tka = an.vtype.get(a)
+        bits = tk_bits(tka) or 64
+        if lo > -(1 << (bits - 1)):
+            ob.verdict, ob.why = PROVED, "operand cannot be the type minimum"
+            return ob
     ob.verdict, ob.why = UNDECIDED, "operator %s" % op
     return ob
 
